@@ -473,3 +473,30 @@ SPECS["C04"] = {
     "assumptions": ["template programs as listed in the harness", "range step != 0"],
     "outside": ["non-terminating ranges", "arbitrary generated programs beyond the templates", "nesting depth > 3"],
 }
+
+_C05 = ["interpreter/common.go", "interpreter/c05.go"]
+SPECS["C05"] = {
+    "explanation": "Program templates through the real parser and interpreter with symbolic values (float64 full width) and symbolic selectors: read-after-write on lists "
+                   "(symbolic index incl. negative), string/number keyed maps (existing/new keys), dot and bracket access, nested paths, aliases; ten scoping templates "
+                   "(nearest-definition assignment, let, block locals, closures, recursion, defaults, fresh locals, by-value/by-reference, lexical not dynamic scope); "
+                   "add/del/concat/len against a slice model; objects with multiple inheritance, this, init with arguments and super constructors. Expected values "
+                   "are computed by direct references in the harness.",
+    "level_text": "bounded: all selector assignments of the listed templates, values fully symbolic",
+    "level_note": "trusts go/ssa, gosym (decimal round trip of small integer indices encoded digit-wise), z3 and the per-template references in the harness",
+    "harnesses": [
+        {"name": "H1-containers", "pkg": "interpreter", "files": _C05, "fn": "VerifC05Containers",
+         "what": "7 container templates", "reach": ["evaluated"],
+         "quick": {"unwind": 60, "wall_s": 900}, "thorough": {"unwind": 60, "wall_s": 3000}},
+        {"name": "H2-scoping", "pkg": "interpreter", "files": _C05, "fn": "VerifC05Scoping",
+         "what": "10 scoping/function templates", "reach": ["evaluated"],
+         "quick": {"unwind": 60, "wall_s": 900, "timeout_ms": 5000}, "thorough": {"unwind": 60, "wall_s": 3000}},
+        {"name": "H3-builtins", "pkg": "interpreter", "files": _C05, "fn": "VerifC05Builtins",
+         "what": "add/del/concat/len vs slice model", "reach": ["evaluated"],
+         "quick": {"unwind": 60, "wall_s": 900}, "thorough": {"unwind": 60, "wall_s": 3000}},
+        {"name": "H4-objects", "pkg": "interpreter", "files": _C05, "fn": "VerifC05Objects",
+         "what": "object with two super templates, init with argument, super constructor, method using this", "reach": ["evaluated"],
+         "quick": {"unwind": 60, "wall_s": 900}, "thorough": {"unwind": 60, "wall_s": 3000}},
+    ],
+    "assumptions": ["template programs as listed in the harness"],
+    "outside": ["arbitrary programs beyond the templates", "argument counts above the parameter count (behaviour not defined by the reference)"],
+}
